@@ -5,6 +5,7 @@ import Preflate.Model.Stream
 import Preflate.Model.Estimator
 import Preflate.Model.EstimatorFull
 import Preflate.Model.DecodeBytes
+import Preflate.Model.ChainsSafe
 namespace Preflate.Driver
 open Preflate
 
@@ -91,5 +92,23 @@ def recompressLine (plain corr : List UInt8) : String :=
   outcome (recompressBytesWithin budget Chains.pred (plain.map (·.toNat)).toArray corr.toArray) fun out =>
     s!"ok {hex out}"
 
+
+/-- `chk` request: do the panic-site checkers of the match finder and hash chains (Model/ChainsSafe.lean,
+    `Proofs.encStreamChk_ok` is about them) reach a panic site on this stream under this parameter
+    vector? Answer `ok` (none reached; an unparseable stream also answers `ok`) or `panic <site>`. -/
+def chkLine (toks : List String) : String :=
+  match toks.reverse with
+  | d :: vs =>
+      match (vs.reverse.mapM String.toNat?).bind paramsOfVec with
+      | some p =>
+          match parse (unhex d) with
+          | .ok parsed =>
+              (match Chains.encStreamChk p parsed.plain parsed.blocks with
+               | .ok _ => "ok"
+               | .error (.panic m) => s!"panic {m}"
+               | .error _ => "ok")
+          | .error _ => "ok"
+      | none => "bad-request"
+  | [] => "bad-request"
 
 end Preflate.Driver
